@@ -545,6 +545,12 @@ def where(cond, a, b):
                                         to_real(Bv._elem(*i)) if Bv is not None else bt), "f")
 
 
+def square(x):
+    if not _sym(x):
+        return _np.square(x)
+    return x * x
+
+
 def maximum(a, b):
     if not anysym(a, b):
         return _np.maximum(a, b)
